@@ -20,7 +20,7 @@ CXX = "clang++"
 SAN = ["-fsanitize=address,undefined", "-fno-sanitize-recover=undefined", "-fno-sanitize=nonnull-attribute"]
 BASEFLAGS = ["-std=c++20", "-g", "-O1", "-fno-omit-frame-pointer", "-Wno-deprecated-declarations", "-DST_VERIF_HOOKS"]
 BUILD_VERSION = "3"   # bump when compile/link commands change (part of every build-cache key)
-ASAN_ENV = "detect_leaks=0:detect_container_overflow=0:allocator_may_return_null=1:abort_on_error=0:handle_abort=0:max_malloc_fill_size=4096:malloc_fill_byte=190"
+ASAN_ENV = "quarantine_size_mb=16:malloc_context_size=3:detect_leaks=0:detect_container_overflow=0:allocator_may_return_null=1:abort_on_error=0:handle_abort=0:max_malloc_fill_size=4096:malloc_fill_byte=190"
 
 sys.path.insert(0, VERIF)
 from props import PROPS  # per-property sizing table
@@ -355,7 +355,7 @@ def check(pid, tier):
     discarded = 0
     excluded = 0
     labels = {}
-    samples = []
+    samples_by_kind = {"enum": [], "rc": [], "fuzz": []}
     exhausted = []
     engines = []
     nt_hashes = set()
@@ -371,9 +371,7 @@ def check(pid, tier):
             excluded += rep["excluded_known"]
             for k, n in rep["labels"].items():
                 labels[k] = labels.get(k, 0) + n
-            for s in rep["samples"]:
-                if len(samples) < 40 and s not in samples:
-                    samples.append(s)
+            samples_by_kind[kind].append(list(rep["samples"]))
             for s in rep["exhausted"]:
                 if s not in exhausted:
                     exhausted.append(s)
@@ -386,8 +384,9 @@ def check(pid, tier):
                 nt_hashes |= load_hashes(os.path.join(work, "%s-%s-%s.json.hashes" % (kind, v, idx)))
             else:
                 nt_hashes |= load_hashes(os.path.join(work, "%s-%s-%s.json.hashes" % (kind, v, idx)))
-        if rc == -999:
-            inconclusive.append(name)
+        if rc == -999 or rc == -9:
+            # time budget hit or killed from outside (OOM killer): exploration just ended, never a verdict
+            inconclusive.append(name + (" (killed)" if rc == -9 else " (time budget)"))
             continue
         if kind == "fuzz":
             wd = os.path.join(work, "fuzz-%s-%s" % (v, idx))
@@ -452,6 +451,16 @@ def check(pid, tier):
             f.write("variant=%s found by %s\nreplay: ./verif.py replay %s %s\n\n%s\n" % (v or "default", how, pid, dest, text[-4000:]))
         violations.append((dest, text))
 
+    # samples: interleave processes of each engine kind so that no engine crowds out the others
+    samples = []
+    for kind_, quota in (("rc", 14), ("enum", 6), ("fuzz", 4)):
+        lists = samples_by_kind[kind_]
+        taken, depth = 0, 0
+        while taken < quota and any(depth < len(l) for l in lists):
+            for l in lists:
+                if depth < len(l) and taken < quota and l[depth] not in samples:
+                    samples.append(l[depth]); taken += 1
+            depth += 1
     distinct = len(nt_hashes) + enum_nt
     wall = time.time() - t0
     evidence = {
